@@ -69,4 +69,24 @@ def cookieValue (name : Bytes) : List (Bytes × Bytes) → Option Bytes
   | [] => none
   | (n, v) :: rest => if n = name then some v else cookieValue name rest
 
+/-! ### the sticky cookie written by `selectNewHost` (selectionpolicies.go:675-704) -/
+
+/-- the attributes that decide whether a browser sends the cookie back -/
+structure CkAttrs where
+  secure : Bool
+  sameSiteNone : Bool
+  maxAge : Int        -- seconds, 0 = no Max-Age attribute
+deriving DecidableEq, Repr
+
+def httpsBytes : Bytes := [104, 116, 116, 112, 115]   -- "https"
+
+/-- `lastHeaderValue(req.Header, "X-Forwarded-Proto")` = "https", consulted only for a trusted proxy -/
+def proxyHttps (trusted : Bool) (xfp : List Bytes) : Bool := trusted && (xfp.getLast? == some httpsBytes)
+
+/-- `tls`: `req.TLS != nil`; `trusted`: the `trusted_proxy` var (C10); `xfp`: the values of
+    X-Forwarded-Proto in header order; `maxAgeNs`: the configured `max_age` in nanoseconds -/
+def stickyAttrs (tls trusted : Bool) (xfp : List Bytes) (maxAgeNs : Int) : CkAttrs :=
+  ⟨tls || proxyHttps trusted xfp, tls || proxyHttps trusted xfp,
+    if 0 < maxAgeNs then maxAgeNs / 1000000000 else 0⟩
+
 end CaddyModel.C08
